@@ -214,7 +214,11 @@ def main():
     # 1. pinned reproducers of this property's findings
     from sim import special  # noqa
     for e in known:
-        if e['property'] != prop or not e.get('reproducer'):
+        if e['property'] != prop:
+            continue
+        if not e.get('reproducer'):
+            if e['status'] == 'known':
+                print('KNOWN-FINDING: ' + e['line'].split('known: ', 1)[-1] + ' (no pinned reproducer for this property)', flush=True)
             continue
         sc = json.load(open(os.path.join(ROOT, e['reproducer'])))
         r = run_guarded(prop, sc)
